@@ -406,8 +406,8 @@ theorem anonymousStructs_declares (U : UnicodeOps) (c : Cfg) (e : RustEnum) :
       rw [h1, anonymousStructName, ← List.append_assoc, ← List.append_assoc, kw_inner]
     simp [h3, h2, anonymousStructs_declares U c e vs st1 st2 ds' hds]
 
-theorem algebraicCases_applies (c : Cfg) (e : RustEnum) :
-    ∀ (vs : List RustEnumVariant) (st st' : St) (ks : List EnumCase), algebraicCases c e vs st = .ok (ks, st') →
+theorem algebraicCases_applies {U : UnicodeOps} (c : Cfg) (e : RustEnum) :
+    ∀ (vs : List RustEnumVariant) (st st' : St) (ks : List EnumCase), algebraicCases U c e vs st = .ok (ks, st') →
       (vs.zip ks).filterMap (fun q => applies q.1 q.2) = (svOf vs).map fun p =>
         c.pfx ++ anonymousStructName e p.1.original ++ genericSuffix (helperGens e p.2)
   | [], st, st', ks, h => by simp [algebraicCases] at h; obtain ⟨rfl, _⟩ := h; rfl
